@@ -150,11 +150,29 @@ func (sc *SpecCtx) resolveType(s string) (types.Type, string, error) {
 		if err == nil && tv.IsType() {
 			return tv.Type, sc.vc.srt.sortOf(tv.Type), nil
 		}
-		// qualified with a package not imported by sc.pkg: search all packages by name
+		// qualified name: prefer the packages imported by sc.pkg, then any repository package of that name
 		if i := strings.LastIndex(s, "."); i > 0 {
 			prefix := strings.TrimLeft(s[:i], "*[]")
 			stars := s[:len(s)-len(strings.TrimLeft(s, "*[]"))]
+			for _, imp := range sc.pkg.Imports() {
+				if imp.Name() == prefix {
+					if o := imp.Scope().Lookup(s[i+1:]); o != nil {
+						if tn, ok := o.(*types.TypeName); ok {
+							var t types.Type = tn.Type()
+							for k := len(stars) - 1; k >= 0; k-- {
+								if stars[k] == '*' {
+									t = types.NewPointer(t)
+								}
+							}
+							return t, sc.vc.srt.sortOf(t), nil
+						}
+					}
+				}
+			}
 			for _, pk := range sc.vc.p.pkgs {
+				if strings.Contains(pk.PkgPath, "/pkg/engine/transaction") || strings.HasSuffix(pk.PkgPath, "/pkg/iterator") {
+					continue // legacy packages that are not imported anywhere
+				}
 				if pk.Types != nil && pk.Types.Name() == prefix && strings.HasPrefix(pk.PkgPath, repoPrefix) {
 					if o := pk.Types.Scope().Lookup(s[i+1:]); o != nil {
 						if tn, ok := o.(*types.TypeName); ok {
